@@ -31,7 +31,7 @@ META = {
                   "rejected). Larger random / collection graphs (<= ~80 nodes) are sampled.",
     "level_note": "Trusted: TLC, the graph builder of harness/graphs.py (checked against a Python reference of IsDag on every "
                   "case), GraphNode.dependencies for graphs taken from collections. Bounded graph sizes; above the bound "
-                  "sampling only. A 3 s wall-clock guard turns non-termination into an observation.",
+                  "sampling only. A 3 s CPU-time guard turns non-termination into an observation.",
 }
 
 FORMS = ("legacy", "taskspec", "mixed")
@@ -84,7 +84,7 @@ def run_case(case, variant):
     dsk = G.build(deps, case["kinds"], names, variant["form"], variant["insert"], variant["alias1"])
     keyindex = {G.thaw(nm): i + 1 for i, nm in enumerate(names)}
     obs = observe(dsk, keyindex, variant["stats"])
-    rec = {"n": n, "deps": deps, "kinds": list(case["kinds"]), "variant": variant}
+    rec = {"fam": case.get("fam", "rand"), "n": n, "deps": deps, "kinds": list(case["kinds"]), "variant": variant}
     rec.update(obs)
     return rec
 
@@ -184,20 +184,50 @@ def report(ctx, recs, bad):
 
 
 # --------------------------------------------------------------------------- case sources
-def enumerated(ctx, fam, consts, forms, cap, nvariants=1):
-    consts = dict(consts, Fam=fam)
-    invs = ["DagSatisfiable", "ReversedRejected", "CyclicUnsatisfiable", "ExternalRejected", "FamilyShape"]
-    spec, cfg = ctx.model(ctx.spec("graph", "OrderMC.tla"), consts, invariants=invs)
-    cases, _ = ctx.tlc_cases(spec, cfg, label="design+cases:" + fam, timeout=3000)
-    total = len(cases)
-    if len(cases) > cap:
-        cases = ctx.rng.sample(cases, cap)
+INVS = ["DagSatisfiable", "ReversedRejected", "CyclicUnsatisfiable", "ExternalRejected", "FamilyShape"]
+
+
+def job(fam, n, allkinds=True, maxext=0, stride=1, offset=0):
+    return {"fam": fam, "n": n, "allkinds": allkinds, "maxext": maxext, "stride": stride, "offset": offset}
+
+
+def plan_for(ctx):
+    """Enumeration jobs of the tier.  Exhaustive (stride 1) up to the stated bound; one notch above
+    it a declared stride sample of the graph codes whose offset is drawn from the seed."""
+    off = lambda st: ctx.rng.randrange(st)
+    if ctx.quick:
+        return ([job("dag", n) for n in range(1, 6)]
+                + [job("ext", n, maxext=2) for n in range(1, 5)]
+                + [job("cyc", n) for n in range(1, 4)]
+                + [job("cyc", 4, allkinds=False, stride=16, offset=off(16))])
+    return ([job("dag", n) for n in range(1, 6)] + [job("dag", 6, stride=8, offset=off(8))]
+            + [job("ext", n, maxext=2) for n in range(1, 5)] + [job("ext", 5, maxext=2, stride=8, offset=off(8))]
+            + [job("cyc", n) for n in range(1, 4)]
+            + [job("cyc", 4, allkinds=False)])
+
+
+def forms_for(case, rng, all_forms_upto):
+    forms = ("taskspec", "mixed") if case["fam"] == "ext" else FORMS
+    if case["n"] <= all_forms_upto:
+        return list(forms)
+    return [rng.choice(forms)]
+
+
+def enumerated(ctx, plan=None, all_forms_upto=None, unsat_n=None):
+    """TLC design check + case export; returns [(case, [variants])], #cases, sampled?"""
+    plan = plan_for(ctx) if plan is None else plan
+    all_forms_upto = ctx.pick(4, 5) if all_forms_upto is None else all_forms_upto
+    consts = {"Plan": plan, "UnsatN": ctx.pick(3, 4) if unsat_n is None else unsat_n}
+    spec, cfg = ctx.model(ctx.spec("graph", "OrderMC.tla"), consts, invariants=INVS)
+    cases, _ = ctx.tlc_cases(spec, cfg, label="design+cases", timeout=3000)
     items = []
     for c in cases:
         case = dict(c["c"], dag=c["e"]["dag"])
-        vs = [variant_for(ctx.rng, case["n"], f) for f in forms for _ in range(nvariants)]
-        items.append((case, vs))
-    return items, total, total > cap
+        items.append((case, [variant_for(ctx.rng, case["n"], f) for f in forms_for(case, ctx.rng, all_forms_upto)]))
+    fams = {c["fam"] for c, _ in items}
+    if not {"dag", "ext", "cyc"} <= fams and len(plan) > 3:
+        raise MachineryError("case enumeration is missing a family: %s" % sorted(fams))
+    return items, len(items), any(j["stride"] > 1 for j in plan)
 
 
 def run_items(ctx, items, prefix):
@@ -317,40 +347,30 @@ def collection_records(ctx):
 
 # --------------------------------------------------------------------------- entry points
 def run(ctx):
-    q = ctx.quick
-    total, sampled = 0, False
-    plan = [
-        ("dag", {"N": ctx.pick(5, 6), "MaxExt": 0, "AllKinds": True, "UnsatN": ctx.pick(3, 4)}, FORMS,
-         ctx.pick(10 ** 9, 400000)),
-        ("ext", {"N": ctx.pick(4, 5), "MaxExt": 2, "AllKinds": True, "UnsatN": 3}, ("taskspec", "mixed"),
-         ctx.pick(10 ** 9, 300000)),
-        ("cyc", {"N": 3, "MaxExt": 0, "AllKinds": True, "UnsatN": 3}, FORMS, 10 ** 9),
-        ("cyc", {"N": 4, "MaxExt": 0, "AllKinds": False, "UnsatN": ctx.pick(3, 4)}, FORMS, ctx.pick(12000, 10 ** 9)),
-    ]
-    for j, (fam, consts, forms, cap) in enumerate(plan):
-        items, tot, smp = enumerated(ctx, fam, consts, forms, cap)
-        total += tot
-        sampled = sampled or smp
-        recs = run_items(ctx, items, "e%d_" % j)
-        bad = judge(ctx, recs, label="trace-validation:" + fam)
-        report(ctx, recs, bad)
-        if recs:
-            r = recs[len(recs) // 2]
-            ctx.sample({"family": fam, "n": r["n"], "deps": r["deps"], "kinds": r["kinds"], "form": r["variant"]["form"],
-                        "res": r["res"], "prio": r["prio"]})
+    items, total, sampled = enumerated(ctx)
+    recs = run_items(ctx, items, "e")
+    del items
+    for fam in ("dag", "ext", "cyc"):
+        mine = [r for r in recs if r["fam"] == fam]
+        r = mine[len(mine) // 2]
+        ctx.sample({"family": fam, "n": r["n"], "deps": r["deps"], "kinds": r["kinds"], "form": r["variant"]["form"],
+                    "res": r["res"], "prio": r["prio"]})
     # larger graphs
-    recs = run_items(ctx, random_cases(ctx, ctx.pick(3000, 60000)), "r")
+    recs += run_items(ctx, random_cases(ctx, ctx.pick(3000, 60000)), "r")
     recs += collection_records(ctx)
-    bad = judge(ctx, recs, batch=10000, label="trace-validation:random+collections")
+    bad = judge(ctx, recs)
     report(ctx, recs, bad)
     ctx.exhaustive = not sampled
     ctx.extra["cases_enumerated_by_tlc"] = total
+    ctx.extra["enumeration_plan"] = plan_for.__doc__.split("\n")[0] + " " + json.dumps(
+        [[j["fam"], j["n"], "all kinds" if j["allkinds"] else "all-task/all-plain", "stride %d" % j["stride"]]
+         for j in plan_for(ctx)])
     ctx.rule = ("cases = TLC-enumerated (graph, kinds, external refs) x spelling (legacy / Task objects / mixed; scrambled names, "
                 "insertion order, alias-vs-list, return_stats) plus seeded random and collection-derived graphs; every call is one "
                 "record decided by TLC; non-trivial = at least 3 keys and 2 edges; distinct by (graph, kinds, spelling)")
     ctx.assumptions = ["TLC evaluates the contract correctly", "harness/graphs.build constructs the graph the case describes",
                        "GraphNode.dependencies is right for collection-derived graphs (C08)",
-                       "a call that does not return within 3 s of wall time does not terminate"]
+                       "a call that burns 3 s of CPU without returning does not terminate"]
 
 
 def replay(ctx, obj):
